@@ -84,8 +84,7 @@ def main(pid, argv):
             got = il if wd else G.erase_docs(il)
             if got != exp:
                 nf += 1
-                if nf <= 4:
-                    ck.fail("idl-wrong-tree", V.hexs(x), "valid description rejected or parsed to a different tree",
+                ck.fail("idl-wrong-tree", V.hexs(x), "valid description rejected or parsed to a different tree",
                             impl=il[:600], model=ml[:600], extra=dict(expected=exp, with_docs=wd, generator=k, text=repr(x[:400])))
                 continue
         if il != ml:
